@@ -320,12 +320,15 @@ class Executor:
     return [(q, VDict(dict(zip(keys, vs)))) for q, vs in self.ev_list(e.values, p, module)]
 
   def ev_ListComp(self, e, p, module):
-    if len(e.generators) != 1 or e.generators[0].ifs or not isinstance(e.generators[0].target, ast.Name):
+    if len(e.generators) != 1 or not isinstance(e.generators[0].target, ast.Name):
       raise Unsupported('comprehension form (line %d)' % e.lineno)
     g = e.generators[0]
     out = []
     for q, it in self.ev(g.iter, p, module):
       from .libspec_np import VRange
+      if g.ifs or isinstance(it, VListRef):
+        out += self._filtered_comp(e, g, q, it, module)
+        continue
       if isinstance(it, VRange) and len(it.args) == 1 and isinstance(it.args[0], VInt):
         n = it.args[0].t
         i = fresh('i', z3.IntSort())
@@ -351,6 +354,53 @@ class Executor:
         out += [(q2, VList(vs)) for q2, vs in acc]
       else:
         raise Unsupported('comprehension over %r (line %d)' % (it, e.lineno))
+    return out
+
+  def _filtered_comp(self, e, g, q, it, module):
+    """[f(x) for x in it if c(x)] / comprehension over a symbolic list: a list of symbolic length <= len(it) whose generic
+    element is f(x) for a generic x satisfying the filters"""
+    from .libspec_np import VRange
+    if isinstance(it, VRange) and len(it.args) == 1:
+      n = it.args[0].t
+      x = VInt(fresh('i', z3.IntSort()))
+      q.assume(x.t >= 0)
+      q.assume(x.t < n)
+    elif isinstance(it, VListRef):
+      L = q.lists[it.lid]
+      n = L['n']
+      x = L['elem']
+      if x is None:
+        lid = fresh_name('l')
+        q.lists[lid] = dict(n=fresh('len', z3.IntSort()), elem=None)
+        return [(q, VListRef(lid))]
+    else:
+      raise Unsupported('filtered comprehension over %r (line %d)' % (it, e.lineno))
+    saved = q.env.get(g.target.id)
+    q.env[g.target.id] = x
+    paths = [q]
+    for cond in g.ifs:
+      nxt = []
+      for r in paths:
+        for r2, c in self.ev(cond, r, module):
+          r2.assume(self.truth(c, r2))
+          if feasible(r2.pc):
+            nxt.append(r2)
+      paths = nxt
+    out = []
+    for r in paths:
+      for r2, elem in self.ev(e.elt, r, module):
+        if saved is None:
+          r2.env.pop(g.target.id, None)
+        else:
+          r2.env[g.target.id] = saved
+        m = fresh('len', z3.IntSort())
+        r2.assume(m >= 0)
+        r2.assume(m <= n)
+        if not g.ifs:
+          r2.assume(m == n)
+        lid = fresh_name('l')
+        r2.lists[lid] = dict(n=m, elem=elem)
+        out.append((r2, VListRef(lid)))
     return out
 
   def ev_Lambda(self, e, p, module):
@@ -726,6 +776,22 @@ class Executor:
         return [(p, VStr(base.s[i]))]
       self.raise_(p, 'IndexError', 'string index line %s' % getattr(node, 'lineno', '?'))
       return []
+    if isinstance(base, VListRef) and isinstance(idx, VInt):
+      L = p.lists[base.lid]
+      bad = p.fork()
+      bad.assume(z3.Not(z3.And(idx.t >= -L['n'], idx.t < L['n'])))
+      if feasible(bad.pc):
+        self.raise_(bad, 'IndexError', 'list index out of range (line %s)' % getattr(node, 'lineno', '?'))
+      p.assume(z3.And(idx.t >= -L['n'], idx.t < L['n']))
+      if L['elem'] is None:
+        raise Unsupported('element of a list of unknown element type')
+      return [(p, L['elem'])] if feasible(p.pc) else []
+    if isinstance(base, VListRef) and isinstance(idx, VSlice) and idx.lo is None and idx.step is None and isinstance(idx.hi, VInt):
+      L = p.lists[base.lid]
+      lid = fresh_name('l')
+      k = idx.hi.t
+      p.lists[lid] = dict(L, n=z3.If(k < 0, z3.IntVal(0), z3.If(L['n'] < k, L['n'], k)))
+      return [(p, VListRef(lid))]
     if isinstance(base, VDict):
       if isinstance(idx, VStr):
         if idx.s in base.d:
@@ -1136,9 +1202,23 @@ class Executor:
     return self.block(st.body, [p], module)
 
   def st_Delete(self, st, p, module):
-    if self.lib:
-      return self.lib.delete(self, st, p, module)
-    raise Unsupported('del')
+    out = [p]
+    for t in st.targets:
+      if not isinstance(t, ast.Subscript):
+        raise Unsupported('del of a non-subscript (line %d)' % st.lineno)
+      nxt = []
+      for q in out:
+        for q1, base in self.ev(t.value, q, module):
+          for q2, idx in self.ev(t.slice, q1, module):
+            if isinstance(base, VListRef) and isinstance(idx, VInt):
+              L = dict(q2.lists[base.lid])
+              L['n'] = L['n'] - 1
+              q2.lists[base.lid] = L
+              nxt.append(q2)
+            else:
+              raise Unsupported('del %r[%r] (line %d)' % (base, idx, st.lineno))
+      out = nxt
+    return out
 
   def st_Break(self, st, p, module):
     self.finish(p, ('break',))
